@@ -76,13 +76,25 @@ def fmtPC (st : PCState) : String :=
 /-- the `chain` op runs on a node with five normal origin arbiters, keys 0..4. -/
 def chainArbs : List Arb := [⟨0, true⟩, ⟨1, true⟩, ⟨2, true⟩, ⟨3, true⟩, ⟨4, true⟩]
 
-def fmtDisp (x : Bool × Bool × Nat) : String :=
-  (if x.1 then "1" else "0") ++ (if x.2.1 then "1" else "0") ++ ":" ++ toString x.2.2
+def fmtDispI (x : Option (Bool × Bool) × Nat) : String :=
+  (match x.1 with
+   | some (a, b) => (if a then "1" else "0") ++ (if b then "1" else "0")
+   | none => "-") ++ ":" ++ toString x.2
+
+/-- dispatcher items: a vote `s:a:h:g`, or `v` (view change) / `h` (height finished). -/
+def parseDItems (s : String) : Option (List DItem) :=
+  (s.splitOn ",").foldr (fun x acc => match acc with
+    | none => none
+    | some l =>
+      if x = "v" || x = "h" then some (.clean :: l)
+      else match parseVote (x.splitOn ":") with
+        | some v => some (.vote v :: l)
+        | none => none) (some [])
 
 def stepC25 : List String → String
   | ["disp", arbs, votes] =>
-      match parseList parseArb arbs, parseList parseVote votes with
-      | some arbs, some vs => if vs.isEmpty then "bad-op" else " ".intercalate ((dispRun arbs [] vs).map fmtDisp)
+      match parseList parseArb arbs, parseDItems votes with
+      | some arbs, some xs => if xs.isEmpty then "bad-op" else " ".intercalate ((dispRunI arbs [] xs).map fmtDispI)
       | _, _ => "bad-op"
   | "chain" :: era :: steps =>
       match parseCSteps steps with
